@@ -1,20 +1,25 @@
 (* Micro-step machine for "a lock-free lookup overlapping replacements of the value" (C12, concurrent
    clause).  One key.  Executable definitions only.
 
-   reader  (Index.__getitem__ -> Cache.get fast path):  SELECT the row;  open the file named by the row
+   reader  (Index.__getitem__ -> Cache.get fast path):  SELECT the row;  open the file named by the row;  when the
+                                                        file is gone SELECT again, unless the SAME file was already
+                                                        missing the time before (then: KeyError)
+           (`again = false` is the reader the code had before that repair: SELECT; open; a missing file -> KeyError)
    writer  (Index.__setitem__ -> Cache.set):            write the new file;  BEGIN IMMEDIATE;  UPDATE the row
                                                         (new file name);  COMMIT;  remove the old file
    Inline values travel in the row itself: the reader needs no second step, the writer writes/removes no file.
    SQLite: one writer between BEGIN and COMMIT; a reader sees the last committed row.
    Writer number i names its file i; the initial file is -1 (file names are never reused). *)
-From DC Require Import DCPrelude.
+From DC Require Import DCPrelude Gen_Sql.
 
 Inductive vrep := Inline (v : Z) | InFile (name : Z).
 
 Inductive rpc :=
 | RStart
-| RSelected (name : Z)          (* the SELECT returned a row naming this file *)
-| RDone (result : option Z).    (* Some v = value returned, None = KeyError *)
+| RSelected (name : Z) (missing : option Z)   (* the SELECT returned a row naming this file; missing = the file the
+                                                 open before could not find *)
+| RAgain (missing : Z)                        (* the open failed: SELECT again *)
+| RDone (result : option Z).                  (* Some v = value returned, None = KeyError *)
 
 Inductive wpc :=
 | WStart
@@ -53,24 +58,37 @@ Fixpoint upd {A} (i : nat) (x : A) (l : list A) : list A :=
 
 Definition set_pc (w : writer) (p : wpc) : writer := {| w_val := w_val w; w_file := w_file w; w_pc := p |}.
 
-Definition reader_step (c : cfg) : cfg :=
+Definition with_reader (c : cfg) (r : rpc) (removed : bool) : cfg :=
+  {| committed := committed c; lock := lock c; files := files c; reader := r; writers := writers c;
+     removed_during_lookup := removed |}.
+
+(* the SELECT of the lookup: the committed row *)
+Definition reader_select (c : cfg) (missing : option Z) : cfg :=
+  match committed c with
+  | None => with_reader c (RDone None) false
+  | Some (Inline v) => with_reader c (RDone (Some v)) false
+  | Some (InFile n) => with_reader c (RSelected n missing) false
+  end.
+
+Definition same_missing (missing : option Z) (n : Z) : bool :=
+  match missing with Some m => m =? n | None => false end.
+
+(* again: the reader looks the row up again when the file is gone (the code as it is); false: the reader before the repair *)
+Definition reader_step (again : bool) (c : cfg) : cfg :=
   match reader c with
-  | RStart =>
-      match committed c with
-      | None => {| committed := committed c; lock := lock c; files := files c; reader := RDone None;
-                   writers := writers c; removed_during_lookup := false |}
-      | Some (Inline v) => {| committed := committed c; lock := lock c; files := files c; reader := RDone (Some v);
-                              writers := writers c; removed_during_lookup := false |}
-      | Some (InFile n) => {| committed := committed c; lock := lock c; files := files c; reader := RSelected n;
-                              writers := writers c; removed_during_lookup := false |}
+  | RStart => reader_select c None
+  | RSelected n missing =>
+      match file_get n (files c) with
+      | Some v => with_reader c (RDone (Some v)) (removed_during_lookup c)
+      | None => if again && negb (same_missing missing n)
+                then with_reader c (RAgain n) (removed_during_lookup c)
+                else with_reader c (RDone None) (removed_during_lookup c)
       end
-  | RSelected n =>
-      {| committed := committed c; lock := lock c; files := files c; reader := RDone (file_get n (files c));
-         writers := writers c; removed_during_lookup := removed_during_lookup c |}
+  | RAgain m => reader_select c (Some m)
   | RDone _ => c
   end.
 
-Definition is_selected (r : rpc) : bool := match r with RSelected _ => true | _ => false end.
+Definition is_selected (r : rpc) : bool := match r with RSelected _ _ => true | _ => false end.
 
 Definition writer_step (i : nat) (c : cfg) : cfg :=
   match nth_error (writers c) i with
@@ -112,14 +130,14 @@ Definition writer_step (i : nat) (c : cfg) : cfg :=
   end.
 
 (* client 0 is the reader, client S i is writer i *)
-Definition step (c : cfg) (cid : nat) : cfg :=
-  match cid with O => reader_step c | S i => writer_step i c end.
+Definition step (again : bool) (c : cfg) (cid : nat) : cfg :=
+  match cid with O => reader_step again c | S i => writer_step i c end.
 
-Definition run (c : cfg) (sched : list nat) : cfg := fold_left step sched c.
+Definition run (again : bool) (c : cfg) (sched : list nat) : cfg := fold_left (step again) sched c.
 
 (* every configuration passed through, the first included *)
-Fixpoint trace (c : cfg) (sched : list nat) : list cfg :=
-  match sched with [] => [c] | cid :: r => c :: trace (step c cid) r end.
+Fixpoint trace (again : bool) (c : cfg) (sched : list nat) : list cfg :=
+  match sched with [] => [c] | cid :: r => c :: trace again (step again c cid) r end.
 
 Definition present (c : cfg) : bool := is_some (committed c).
 
@@ -132,5 +150,11 @@ Definition init (file0 : bool) (v0 : Z) (ws : list (Z * bool)) : cfg :=
      writers := map (fun p => {| w_val := fst p; w_file := snd p; w_pc := WStart |}) ws;
      removed_during_lookup := false |}.
 
+(* None: the lookup has not returned yet; Some None: it raised KeyError ("absent"); Some (Some v): it returned v *)
 Definition lookup_result (c : cfg) : option (option Z) :=
   match reader c with RDone r => Some r | _ => None end.
+
+(* the reader of the code as it is (tools/emit_sql.py pins the loop of Cache.get; Gen_Sql.get_retries_after_missing_file)
+   and the reader of the code before the repair *)
+Definition repaired : bool := get_retries_after_missing_file.
+Definition old_reader : bool := false.
